@@ -239,6 +239,15 @@ impl World {
                                 if sqe.user_data != 2 || sqe.flags & abi::SQE_CQE_SKIP_SUCCESS == 0 {
                                     self.fail("cancellation request without the bookkeeping user_data / CQE_SKIP_SUCCESS".into());
                                 }
+                                // An operation is named by the address of its state: that is only
+                                // sound while the kernel runs the cancellation inline, in
+                                // submission order. With IOSQE_ASYNC (or a link/drain flag) it runs
+                                // after later submissions and can hit a new operation that was
+                                // given the address of a finished one. Every other field is 0.
+                                let want = abi::Sqe { opcode: abi::OP_ASYNC_CANCEL, flags: abi::SQE_CQE_SKIP_SUCCESS, ioprio: 0, fd: 0, off: 0, addr: sqe.addr, len: 0, op_flags: 0, user_data: 2, buf_index: 0, personality: 0, file_index: 0, addr3: 0, pad2: 0 };
+                                if sqe != want {
+                                    self.fail(format!("the cancellation request for operation {t} is {sqe:?}; a request the kernel runs inline and that names exactly that operation is {want:?}"));
+                                }
                             }
                         }
                     } else if let Some(op) = self.op_of_sqe(&sqe) {
@@ -716,13 +725,52 @@ pub fn one_case(r: &mut Rng, focus: &Focus, silent: &Arc<Mutex<Option<String>>>)
         }
         events.push(ev);
     }
+    // C02: drain every multishot stream that is still held (ring poll, then polls until it has
+    // nothing more to give): whatever the kernel posted for it must have come out by then.
+    let mut drained: Vec<usize> = Vec::new();
+    if focus.prop == "C02" && w.oracle.is_none() {
+        for i in 0..n_ops {
+            if w.ops[i].kind != OpKind::MultiAccept || w.ops[i].fut.is_none() || w.ops[i].finished {
+                continue;
+            }
+            let mut tail = vec![Event::RingPoll];
+            let wk = w.ops[i].last_poll.map_or(next_waker + 1 + i as u64, |p| p.0);
+            for _ in 0..w.ops[i].posted_all.len() + 2 {
+                tail.push(Event::Poll(i, wk));
+            }
+            let mut pending_seen = false;
+            for ev in tail {
+                if w.oracle.is_some() || w.ops[i].finished || pending_seen {
+                    break;
+                }
+                w.obs.push(1);
+                match &ev {
+                    Event::Poll(i, wk) => {
+                        w.do_poll(*i, *wk);
+                        pending_seen = w.ops[*i].last_poll.is_some_and(|p| p.1);
+                    }
+                    _ => w.do_ring_poll(),
+                }
+                events.push(ev);
+            }
+            drained.push(i);
+        }
+    }
 
     // ---- oracles over the whole history -------------------------------------------------------
     let mut tags = vec![format!("cap:{cap}"), format!("ops:{n_ops}")];
     for i in 0..n_ops {
         let o = &w.ops[i];
         // C02 / C09: what the future handed out against what the kernel posted for it.
-        let msg = check_outputs(i, o);
+        let msg = check_outputs(i, o).or_else(|| {
+            // A drained multishot stream has handed out every successful result the kernel posted.
+            if !drained.contains(&i) {
+                return None;
+            }
+            let got: Vec<i128> = o.outputs.iter().filter(|x| x.0 == 11).map(|x| x.1).collect();
+            let lost: Vec<i128> = o.posted_all.iter().filter(|c| c.res >= 0 && !c.notif).map(|c| c.res as i128).filter(|v| !got.contains(v)).collect();
+            (!lost.is_empty()).then(|| format!("multishot operation {i} was polled until it had nothing more to give, but the results {lost:?} the kernel posted for it were never handed out (handed out: {got:?})"))
+        });
         if let Some(m) = msg {
             w.fail(m);
         }
